@@ -56,7 +56,9 @@ RULE += (" Added after the white-box review: "
 RULE += (" Added after the second white-box review: 15 % of the multi-"
          "user cases have ONE transmitter and 2..3 receivers (directly or "
          "after a direction switch) with a 1-D time-domain signal of 2..12 "
-         "samples first (label mu_one_tx_1d_time). ")
+         "samples first (label mu_one_tx_1d_time); the path loss of the "
+         "NEXT transmission may be set before the response of the previous "
+         "one is asked for. ")
 
 LEVEL_TEXT = ("Generated-input search (Hypothesis, seeded, sharded) over tap "
               "profiles, fading generators, antenna set-ups, wrappers and "
@@ -311,14 +313,17 @@ def _history(draw, tier, mem_ub, freq, can_pl, plm=None):
         if can_pl and _p(draw, 0.35):
             ops.append(dict(op="pl", v=draw(st.one_of(
                 st.none(), loguniform(-6, 0), loguniform(-6, 0),
-                loguniform(-18, -10), st.just(1.0), st.just(0.0)))))
+                loguniform(-18, -10), st.just(1.0), st.just(0.0))),
+                # the path loss of the NEXT transmission is set before the
+                # response of the previous one is asked for
+                early=draw(st.booleans())))
         if plm is not None and _p(draw, 0.35):
             none = _p(draw, 0.12)
             ops.append(dict(op="plm", v=None if none else draw(st.lists(
                 st.one_of(loguniform(-6, 0), loguniform(-6, 0),
                           loguniform(-6, 0), loguniform(-18, -10),
                           st.just(0.0), st.just(1.0)),
-                min_size=plm, max_size=plm))))
+                min_size=plm, max_size=plm)), early=draw(st.booleans())))
         if freq and (i == forced or _p(draw, 0.6)):
             ops.append(draw(_tx_freq(tier, mem_ub)))
         else:
@@ -769,7 +774,11 @@ def _run_single(case, variant):
     al = complex(*case["alpha"])
     be = complex(*case["beta"])
     recs = []
-    for op in case["ops"]:
+    ops = list(case["ops"])
+    done_early = set()
+    for oi, op in enumerate(ops):
+        if oi in done_early:
+            continue
         if op["op"] in ("switch", "pl"):
             link.config(op)
             continue
@@ -807,6 +816,17 @@ def _run_single(case, variant):
             rec["ks"] = ks
         rec["x"] = x
         rec["y"] = np.array(y)
+        nxt = oi + 1
+        while nxt < len(ops) and ops[nxt]["op"] == "switch":
+            nxt += 1
+        if nxt < len(ops) and ops[nxt]["op"] == "pl" and \
+                ops[nxt].get("early") and any(
+                    o["op"] in ("time", "freq") for o in ops[nxt:]):
+            # the caller prepares the NEXT transmission (another path loss)
+            # and only then asks for the response of this one
+            link.config(ops[nxt])
+            done_early.add(nxt)
+            rec["pl_changed_before_query"] = True
         rec["ir"] = _read_ir(_tagged(tags, link.ch.get_last_impulse_response))
         rec["ant"] = link.ant
         recs.append(rec)
@@ -853,6 +873,8 @@ def _check_single(case, ctx):
             ctx.label("switched_tx")
         if rec["pl"] is not None:
             ctx.label("pathloss_tx")
+        if rec.get("pl_changed_before_query"):
+            ctx.label("pathloss_changed_before_response_query")
         if i >= 1 or (mimo and sw) or rec["pl"] is not None:
             interesting = True
         if op["op"] == "time":
@@ -992,19 +1014,27 @@ def _run_mu(case, variant):
     al, be = complex(*case["alpha"]), complex(*case["beta"])
     switched, plm = False, None
     recs = []
-    for op in case["ops"]:
+    ops = list(case["ops"])
+    done_early = set()
+
+    def set_plm(op):
+        t = dict(tags0, op="set_pathloss", pathloss_none=op["v"] is None)
+        if op["v"] is None:
+            _tagged(t, ch.set_pathloss, None)
+            return None
+        m = np.array(op["v"], dtype=float).reshape(n_rx, n_tx)
+        _tagged(t, ch.set_pathloss, m)
+        return m
+
+    for oi, op in enumerate(ops):
+        if oi in done_early:
+            continue
         if op["op"] == "switch":
             ch.switched_direction = bool(op["v"])
             switched = bool(op["v"])
             continue
         if op["op"] == "plm":
-            t = dict(tags0, op="set_pathloss", pathloss_none=op["v"] is None)
-            if op["v"] is None:
-                _tagged(t, ch.set_pathloss, None)
-                plm = None
-            else:
-                plm = np.array(op["v"], dtype=float).reshape(n_rx, n_tx)
-                _tagged(t, ch.set_pathloss, plm)
+            plm = set_plm(op)
             continue
         n_txu, n_rxu = (n_rx, n_tx) if switched else (n_tx, n_rx)
         nin = None if not ant else (ant[0] if switched else ant[1])
@@ -1035,6 +1065,19 @@ def _run_mu(case, variant):
                 tags["signal_as_list"] = True
             y = _tagged(tags, ch.corrupt_data_in_freq_domain, xarg,
                         op["fft"], _sel_obj(op["sel"]))
+        pl_tx = plm is not None
+        early = False
+        nxt = oi + 1
+        while nxt < len(ops) and ops[nxt]["op"] == "switch":
+            nxt += 1
+        if nxt < len(ops) and ops[nxt]["op"] == "plm" and \
+                ops[nxt].get("early") and any(
+                    o["op"] in ("time", "freq") for o in ops[nxt:]):
+            # the path loss of the NEXT transmission is set before the
+            # responses of this one are asked for
+            plm = set_plm(ops[nxt])
+            done_early.add(nxt)
+            early = True
         irs = {}
         for i in range(n_rx):
             for j in range(n_tx):
@@ -1043,7 +1086,8 @@ def _run_mu(case, variant):
         recs.append(dict(op=op, x=np.reshape(x, (n_txu,) + shape[-2:]
                                              if nin else (n_txu, n)),
                          y=[np.array(v) for v in y], ny=len(y), irs=irs,
-                         switched=switched, pl=plm is not None, tags=tags,
+                         switched=switched, pl=pl_tx, tags=tags,
+                         pl_changed_before_query=early,
                          ks=ks, n=n, n_txu=n_txu, n_rxu=n_rxu))
     return ch, tags0, orc, recs
 
@@ -1076,6 +1120,8 @@ def _check_mu(case, ctx):
             ctx.label("switched_tx")
         if rec["pl"]:
             ctx.label("pathloss_tx")
+        if rec.get("pl_changed_before_query"):
+            ctx.label("pathloss_changed_before_response_query")
         if not mimo and n_txu == 1 and n_rxu >= 2 and \
                 op["op"] == "time" and op.get("oned") and n >= 2:
             ctx.label("mu_one_tx_1d_time")
